@@ -52,8 +52,8 @@ ASSUMPTIONS = [
   'unparsable = rejected by Python or using syntax outside the documented node list of parse_predicate_formula; '
   'such texts come from a fixed list and are stored with ApplyDocActions (as in documents written by old versions)',
 ]
-BUDGET = {'quick': dict(examples=1600, shards=16, max_seconds=50),
-          'thorough': dict(examples=24000, shards=16, max_seconds=560)}
+BUDGET = {'quick': dict(examples=1600, shards=16, max_seconds=40),
+          'thorough': dict(examples=24000, shards=16, max_seconds=540)}
 SHRINK_BUDGET = {'quick': 60, 'thorough': 300}
 
 TABLE_POOL = ['Students', 'Schools', 'Staff', 'Orders', 'Teams', 'Places']
